@@ -88,8 +88,8 @@ TRUSTED_BASE = [
     "swissquote), and the damaged kind `quote` (a bare quote / text after a closing quote) for the strict readers.  Sensitivity "
     "(scratch copies of the clean tree): swisscard2 without TrimLeadingSpace: 26 spec failures (well-formed statement not "
     "imported); revolut2 with LazyQuotes = true: no spec failure - unobservable on every well-formed statement, since a text "
-    "the strict reader accepts is read in the same way by the lazy one (scan_quoted/parse_fields differ only where the strict "
-    "reader returns ErrQuote/ErrBareQuote) - but 29 disagreements model/binary on the damaged kind `quote`",
+    "the strict reader accepts is read in the same way by the lazy one (proved: C13_csv_lazy_conservative, "
+    "C13_csv_set_lazy_conservative in Properties/C13csv.v) - but 29 disagreements model/binary on the damaged kind `quote`",
     "Model/Csv.v restrictions: Comma/Comment ASCII (all importers), input from memory (no I/O error of the underlying reader), "
     "line/column of a ParseError not modelled, nothing read after the first error; harness c13csv.go (generator, the Read loop, "
     "the classification of the error by errors.Is) and drv_c13csv.ml (decoding, rendering, the field-count verdict)",
@@ -185,7 +185,9 @@ LEVEL_TEXT = ("C13_<importer>_faithful and C13_<importer>_end_to_end (Coq): for 
               "byte string decodes to a byte string of one or two bytes per byte), C13_latin1_byte_utf8 (each byte to the UTF-8 "
               "encoding of the code point with its number), C13_latin1_decode_ascii (bytes below 0x80 unchanged), "
               "C13_latin1_decode_injective; C13_csv_set_total, C13_csv_set_nil, C13_csv_items_supercard_shape for the reader "
-              "whose FieldsPerRecord is assigned before calls of Read (2, 13, then -1).")
+              "whose FieldsPerRecord is assigned before calls of Read (2, 13, then -1).  C13_csv_lazy_conservative / "
+              "C13_csv_set_lazy_conservative: if a reader returns records (no error) on a text, the same reader with LazyQuotes = true "
+              "returns the same records - LazyQuotes cannot be observed on a statement a strict reader accepts.")
 LEVEL_NOTE = ("Trusted: kernel, extraction, the harness' generators and runner, Go's json reader (viac; observed, not modelled) and charmap.ISO8859_1 (hand-modelled since ext-sc, tied by csv-records on the supercard cases; "
               "encoding/csv is modelled since ext-csv: Model/Csv.v, tied by C13.csv on 10^4 byte strings per run - 450 000 more with "
               "three other seeds agreed - and by the verdict csv-records on every case of ten importers (supercard since ext-sc); model mutations `trailing "
